@@ -17,7 +17,8 @@
 (* c: n, m, k (max outstanding per master and per slave), bases, dir, cbar,*)
 (*    mfree / sfree (per port: 1 = full freedom, 0 = simple behaviour:     *)
 (*    a simple master offers address and data together and is always ready *)
-(*    for responses; a simple slave is always ready and answers at once)   *)
+(*    for responses; a simple slave is always ready and answers at once),  *)
+(*    earlyw, xslave (see MasterMoves)                                     *)
 (***************************************************************************)
 EXTENDS Integers, Sequences, FiniteSets, TLC
 
@@ -62,19 +63,26 @@ ORr(c, o, j)  == o[4 * c.n + 5 * (j - 1) + 5]
 
 ---------------------------------------------------------------------------
 (* Environment *)
+\* c.earlyw = 0: a master offers write data only together with or after its address offer
+\* c.xslave = 0: a master does not address another slave while it has unanswered requests
 MasterMoves(c, i) ==
   LET canA == Len(aq[i]) < c.k
       canW == HasW(c) /\ nw[i] < c.k
+      Tgts == IF c.xslave = 1 \/ aq[i] = <<>> THEN Slaves(c) ELSE { aq[i][1] }
       AOpts == IF ah[i] # 0 THEN { ah[i] }
-               ELSE IF canA THEN {0} \cup Slaves(c) ELSE {0}
-      WOpts == IF wh[i] = 1 THEN {1} ELSE IF canW THEN {0, 1} ELSE {0}
-      ROpts == IF c.mfree[i] = 1 THEN {0, 1} ELSE {1}
+               ELSE IF canA THEN {0} \cup Tgts ELSE {0}
+      WOpts(t) == IF wh[i] = 1 THEN {1}
+                  \* without early data the number of data beats never exceeds the number of addresses
+                  ELSE IF canW /\ (c.earlyw = 1 \/ nw[i] + 1 <= Len(aq[i]) + (IF t # 0 THEN 1 ELSE 0))
+                       THEN {0, 1} ELSE {0}
   IN IF c.mfree[i] = 1
-     THEN { <<IF t = 0 THEN 0 ELSE 1, t, w, r>> : t \in AOpts, w \in WOpts, r \in ROpts }
-     ELSE \* simple master: address and data offered together
-          { <<IF t = 0 THEN 0 ELSE 1, t, w, 1>> : t \in AOpts, w \in WOpts } \cap
-          { x \in {0, 1} \X (0..c.m) \X {0, 1} \X {1} :
-               (~HasW(c)) \/ (ah[i] # 0 \/ wh[i] = 1) \/ ((x[1] = 1) <=> (x[3] = 1)) }
+     THEN UNION { { <<IF t = 0 THEN 0 ELSE 1, t, w, r>> : w \in WOpts(t), r \in {0, 1} } : t \in AOpts }
+     ELSE \* simple master: address and data offered together, always ready for the response
+          IF ah[i] # 0 \/ wh[i] = 1
+          THEN { <<IF ah[i] # 0 THEN 1 ELSE 0, ah[i], wh[i], 1>> }
+          ELSE { <<0, 0, 0, 1>> } \cup
+               (IF canA /\ (canW \/ ~HasW(c))
+                THEN { <<1, t, IF HasW(c) THEN 1 ELSE 0, 1>> : t \in Tgts } ELSE {})
 
 SlaveMoves(c, j) ==
   IF c.sfree[j] = 1
@@ -100,7 +108,7 @@ CInit ==
   /\ sav = [j \in 1..MAXN |-> <<>>] /\ swv = [j \in 1..MAXN |-> <<>>]
   /\ mrv = [i \in 1..MAXN |-> <<>>]
   /\ obs = [okroute |-> TRUE, okw |-> TRUE, okonce |-> TRUE, okresp |-> TRUE, okfrozen |-> TRUE,
-            okhold |-> TRUE, busy |-> FALSE, sfair |-> TRUE, mfair |-> TRUE]
+            okhold |-> TRUE, okholdw |-> TRUE, prog |-> [i \in 1..MAXN |-> TRUE], idle |-> [i \in 1..MAXN |-> TRUE], fair |-> TRUE]
 
 CStep(c, iv, o) ==
   LET \* ---- handshakes seen at the masters
@@ -155,14 +163,15 @@ CStep(c, iv, o) ==
       \* grant / select frozen while responses are outstanding
       Outst(S) == UNION { { qa1[j][x] : x \in 1..Len(qa1[j]) } : j \in S }
       okfrozen ==
-        /\ \A i \in Masters(c) : \A x, y \in 1..Len(aq1[i]) : aq1[i][x] = aq1[i][y]
+        /\ (c.xslave = 0 => \A i \in Masters(c) : \A x, y \in 1..Len(aq1[i]) : aq1[i][x] = aq1[i][y])
         /\ IF c.cbar = 1 THEN \A j \in Slaves(c) : Cardinality(Outst({j})) <= 1
                          ELSE Cardinality(Outst(Slaves(c))) <= 1
       \* valid/payload hold on the channels the interconnect drives
       okhold ==
         /\ \A j \in Slaves(c) : sav[j] # <<>> => (OAv(c, o, j) = 1 /\ OAa(c, o, j) = sav[j][1])
-        /\ \A j \in Slaves(c) : swv[j] # <<>> => (OWv(c, o, j) = 1 /\ OWt(c, o, j) = swv[j][1])
         /\ \A i \in Masters(c) : mrv[i] # <<>> => (ORv(o, i) = 1 /\ ORt(o, i) = mrv[i][1])
+      okholdw ==
+        \A j \in Slaves(c) : swv[j] # <<>> => (OWv(c, o, j) = 1 /\ OWt(c, o, j) = swv[j][1])
   IN
   /\ ah' = [i \in 1..MAXN |-> IF i \in Masters(c) /\ MAv(iv, i) = 1 /\ ~mAfire(i) THEN MTgt(iv, i) ELSE 0]
   /\ wh' = [i \in 1..MAXN |-> IF i \in Masters(c) /\ MWv(iv, i) = 1 /\ ~mWfire(i) THEN 1 ELSE 0]
@@ -186,13 +195,18 @@ CStep(c, iv, o) ==
   /\ swv' = [j \in 1..MAXN |-> IF j \in Slaves(c) /\ OWv(c, o, j) = 1 /\ ~sWfire(j) THEN <<OWt(c, o, j)>> ELSE <<>>]
   /\ mrv' = [i \in 1..MAXN |-> IF i \in Masters(c) /\ ORv(o, i) = 1 /\ ~mRfire(i) THEN <<ORt(o, i)>> ELSE <<>>]
   /\ obs' = [okroute |-> okroute, okw |-> okw1 /\ okw2, okonce |-> okonce, okresp |-> okresp,
-             okfrozen |-> okfrozen, okhold |-> okhold,
-             \* something is held or outstanding after this cycle
-             busy |-> \E i \in Masters(c) : (MAv(iv, i) = 1 /\ ~mAfire(i)) \/ (MWv(iv, i) = 1 /\ ~mWfire(i))
-                                            \/ aq1[i] # <<>>,
-             \* fairness bookkeeping: slaves cooperating in this cycle, masters cooperating
-             sfair |-> \A j \in Slaves(c) : SAr(c, iv, j) = 1 /\ (HasW(c) => SWr(c, iv, j) = 1) /\ SRv(c, iv, j) = 1,
-             mfair |-> \A i \in Masters(c) : MRr(iv, i) = 1]
+             okfrozen |-> okfrozen, okhold |-> okhold, okholdw |-> okholdw,
+             \* master i made progress in this cycle (some handshake) or has nothing pending
+             prog |-> [i \in 1..MAXN |-> i \notin Masters(c) \/ mAfire(i) \/ mWfire(i) \/ mRfire(i)
+                                          \/ (MAv(iv, i) = 0 /\ MWv(iv, i) = 0 /\ aq[i] = <<>>)],
+             idle |-> [i \in 1..MAXN |-> i \notin Masters(c) \/ (MAv(iv, i) = 0 /\ MWv(iv, i) = 0 /\ aq[i] = <<>>)],
+             \* cooperation in this cycle: slaves ready and answering, masters accepting responses and not
+             \* withholding the other half of a write (data for an accepted address / address for early data)
+             fair |-> /\ \A j \in Slaves(c) : SAr(c, iv, j) = 1 /\ (HasW(c) => SWr(c, iv, j) = 1) /\ SRv(c, iv, j) = 1
+                      /\ \A i \in Masters(c) : /\ MRr(iv, i) = 1
+                                                /\ (wt[i] # <<>> => MWv(iv, i) = 1)
+                                                /\ (ew[i] # <<>> => MAv(iv, i) = 1)
+                                                /\ ((MAv(iv, i) = 1 /\ HasW(c) /\ wt[i] = <<>> /\ ew[i] = <<>>) => MWv(iv, i) = 1)]
 
 ---------------------------------------------------------------------------
 RoutedByAddress        == obs.okroute   \* an accepted address reaches exactly one slave, chosen by the address
@@ -200,5 +214,6 @@ WFollowsItsAW          == obs.okw       \* write data goes to the slave of its a
 DataExactlyOnce        == obs.okonce
 ResponseToIssuerInOrder == obs.okresp   \* B / R reach the issuing master exactly once, in issue order
 FrozenWhileOutstanding == obs.okfrozen  \* grant and slave selection do not change while responses are outstanding
-ValidHold              == obs.okhold
+ValidHold              == obs.okhold    \* address offers at slaves, responses at masters
+WValidHold             == obs.okholdw   \* write data offers at slaves
 =============================================================================
